@@ -167,7 +167,14 @@ func (w *world) dump() string {
 		cur, _ := app.DistrKeeper.GetValidatorCurrentRewards(ctx, v)
 		outst, _ := app.DistrKeeper.GetValidatorOutstandingRewards(ctx, v)
 		com, _ := app.DistrKeeper.GetValidatorAccumulatedCommission(ctx, v)
-		fmt.Fprintf(&sb, " V%d[t=%s s=%s p=%d c=%s o=%s m=%s", i, val.Tokens.String(), decRaw(val.DelegatorShares), cur.Period,
+		status := "B"
+		if !val.IsBonded() {
+			status = fmt.Sprintf("U%d", val.UnbondingHeight)
+		}
+		if val.IsJailed() {
+			status += "J"
+		}
+		fmt.Fprintf(&sb, " V%d[%s t=%s s=%s p=%d c=%s o=%s m=%s", i, status, val.Tokens.String(), decRaw(val.DelegatorShares), cur.Period,
 			decCoinsRaw(cur.Rewards), decCoinsRaw(outst.Rewards), decCoinsRaw(com.Commission))
 		hs := hist[i]
 		sort.Slice(hs, func(a, b int) bool { return hs[a].p < hs[b].p })
@@ -440,6 +447,14 @@ func (w *world) apply(line string) string {
 	switch f[0] {
 	case "dump":
 	case "block":
+		// end of block: the staking EndBlocker's validator-set update (jailed or powerless validators leave the active
+		// set: Bonded -> Unbonding, their tokens move to the not-bonded pool; others come back), then the next height
+		if r := hx.Try(func() error {
+			_, err := app.StakingKeeper.ApplyAndReturnValidatorSetUpdates(w.s.Ctx)
+			return err
+		}); r != "ok" {
+			w.violate("validator-set update at the end of the block failed: " + r)
+		}
 		w.s.Ctx = w.s.Ctx.WithBlockHeight(w.s.Ctx.BlockHeight() + 1).WithBlockTime(w.s.Ctx.BlockTime().Add(5 * time.Second))
 	case "alloc":
 		a := ints(1)
@@ -463,6 +478,28 @@ func (w *world) apply(line string) string {
 		r := hx.Try(func() error {
 			_, err := app.StakingKeeper.Slash(cctx, cons, cctx.BlockHeight(), int64(a[1]), factor)
 			return err
+		})
+		if r == "ok" {
+			write()
+		} else {
+			kind = kindOf(r, false)
+		}
+	case "jail", "unjail":
+		// real staking keeper Jail / Unjail (what the slashing module calls): the validator drops out of / returns to
+		// the power index; its status changes at the end of the block (validator-set update in `block`)
+		a := ints(1)
+		val, _ := app.StakingKeeper.GetValidator(w.ctx(), w.vals[a[0]])
+		cons, _ := val.GetConsAddr()
+		if (f[0] == "jail") == val.IsJailed() {
+			kind = "err"
+			break
+		}
+		cctx, write := w.s.Ctx.CacheContext()
+		r := hx.Try(func() error {
+			if f[0] == "jail" {
+				return app.StakingKeeper.Jail(cctx, cons)
+			}
+			return app.StakingKeeper.Unjail(cctx, cons)
 		})
 		if r == "ok" {
 			write()
@@ -782,6 +819,12 @@ func (w *world) transferStats(before snap, kind string, from, to, v int, x *big.
 	})
 	if slashed {
 		w.out.Count("transfer-ok:validator-slashed-before")
+	}
+	if val, err := w.s.App.StakingKeeper.GetValidator(ctx, w.vals[v]); err == nil && !val.IsBonded() {
+		w.out.Count("transfer-ok:validator-not-bonded")
+		if erf != nil && erf.Sign() > 0 {
+			w.out.Count("transfer-ok:validator-not-bonded+sender-rewards-pending")
+		}
 	}
 	if !before.sh(from, v).Equal(before.sh(from, v).TruncateDec()) {
 		w.out.Count("transfer-ok:sender-fractional-shares")
@@ -1165,6 +1208,20 @@ func (g *gen) next() string {
 	v := r.Intn(w.nVal)
 	hs := g.holders(v)
 	roll := r.Intn(100)
+	// validator status changes: a validator with delegators leaves the active set (jailed) and may come back
+	if r.Intn(25) == 0 {
+		val, _ := w.s.App.StakingKeeper.GetValidator(w.ctx(), w.vals[v])
+		if !val.IsJailed() {
+			return fmt.Sprintf("jail %d", v)
+		}
+		return fmt.Sprintf("unjail %d", v)
+	}
+	if roll >= 16 && roll < 28 {
+		// rewards are allocated to bonded validators only
+		if val, _ := w.s.App.StakingKeeper.GetValidator(w.ctx(), w.vals[v]); !val.IsBonded() {
+			roll = 40 + r.Intn(20) // a transfer instead
+		}
+	}
 	switch {
 	case roll < 16 || len(hs) == 0 && roll < 60:
 		return fmt.Sprintf("delegate %d %d %s", hx.Pick(r, us), v, g.amount())
